@@ -83,8 +83,12 @@ std::size_t EventFilter::writeAllowed(const char* buffer, std::size_t bufferSize
         {
           _allowedSourceIds.insert(eventSource.id);
         }
-        // else: event source is not allowed, events referencing it
-        // will not be written.
+        else
+        {
+          // event source is not allowed, events referencing it will not be written,
+          // even if an earlier source with the same id was allowed.
+          _allowedSourceIds.erase(eventSource.id);
+        }
       }
     }
     else if (_allowedSourceIds.count(tag) == 0)
